@@ -43,6 +43,15 @@ Theorem C01_grow_ok_partial : forall bs m, bs < m -> m <= two63 ->
 Proof. exact grow_size_ok. Qed.
 Print Assumptions C01_grow_ok_partial.
 
+(* the filter pipeline is bounded: for EVERY behaviour of the bidders and initialisers choose_filters
+   pushes at most MAX_NUMBER_FILTERS (regenerated from archive_read.c) filters, succeeds only with
+   strictly fewer, and terminates *)
+Theorem C01_filters_bounded : forall bids init_ok probe_ok st d,
+  choose_filters bids init_ok probe_ok = (st, d) ->
+  (d <= N.to_nat MAX_NUMBER_FILTERS)%nat /\ (st = ARCHIVE_OK -> d < N.to_nat MAX_NUMBER_FILTERS)%nat.
+Proof. exact choose_filters_bounded. Qed.
+Print Assumptions C01_filters_bounded.
+
 Example C01_nonvacuous :
   let c := mkClient (map N.of_nat (seq 0 20)) 0 [RSize 3; RSize 1; RSize 9] [] [] false false in
   nofault c /\ fst (ahead (init_filt c) 12) = Win (map N.of_nat (seq 0 12)).
